@@ -99,6 +99,8 @@ def gen_cases(tier: str, seed: int) -> list[dict]:
     per = 50
     for i in range(0, ns, per):
         cases.append({"kind": "sampled", "seed": f"{seed}:C02:{i}", "count": per})
+    for i in range(max(8, ns // 300)):
+        cases.append({"kind": "sampled", "seed": f"{seed}:C02:deep:{i}", "count": 2, "big": True})
     return cases
 
 
@@ -114,6 +116,26 @@ def exh_spec(n: int, code: int) -> dict:
     # one reaction so that get_right_hand_side has something to do
     comps.append({"kind": "reaction", "name": "v", "fn": fl.ref(fl.W[1]), "args": ["x"], "stoich": {"x": -1}})
     return {"components": comps}
+
+
+def _big_spec(rng) -> tuple[dict, str]:  # noqa: ANN001
+    """Deep graphs: a chain of 40..160 derived quantities / reactions (values stay O(1): w1 is a contraction), optionally
+    closed into one long cycle or naming something absent at its far end."""
+    n = rng.choice([40, 64, 80, 100, 160])
+    comps: list[dict] = [
+        {"kind": "parameter", "name": "p0", "value": rm.rnd_val(rng)},
+        {"kind": "variable", "name": "x0", "value": rm.rnd_val(rng)},
+    ]
+    defect = rng.choice(["none", "none", "cycle", "missing"])
+    first_arg = {"none": "x0", "cycle": f"n{n - 1}", "missing": "ghost"}[defect]
+    for i in range(n):
+        prev = first_arg if i == 0 else f"n{i - 1}"
+        args = [prev] if rng.random() < 0.7 else [prev, "p0"]
+        if rng.random() < 0.8:
+            comps.append({"kind": "derived", "name": f"n{i}", "fn": fl.ref(fl.W[len(args)]), "args": args})
+        else:
+            comps.append({"kind": "reaction", "name": f"n{i}", "fn": fl.ref(fl.W[len(args)]), "args": args, "stoich": {"x0": rng.choice([-1, 1])}})
+    return {"components": comps}, f"deep{n}/{defect}"
 
 
 def _mixed_spec(rng) -> tuple[dict, str]:  # noqa: ANN001
@@ -356,7 +378,7 @@ def run_case(case: dict) -> dict:
     else:
         rng = core.rng_for(case["seed"])
         for j in range(case["count"]):
-            spec, tag = _mixed_spec(rng)
+            spec, tag = _big_spec(rng) if case.get("big") else _mixed_spec(rng)
             ncomp = len(spec["components"])
             ident = list(range(ncomp))
             orders = [ident, ident[::-1]]
